@@ -227,6 +227,26 @@ def run(ctx: Context, rep) -> None:
         while isinstance(base, ast.Attribute) and base.attr != "shard":
             base = base.value
         recv = [dotted(w.ast.func.value) for w in writes]
+        # a local alias of the shard expression (helper parameter after
+        # inlining, hoisted chain) names the same shard when no rebind of the
+        # progress record's shard lies between the alias and the attach
+        if isinstance(base, ast.Name) and base.id in v_e.defs and dotted(
+                v_e.defs[base.id]) in recv:
+            dnode = next((n for n in cfg.nodes if n.kind == "stmt" and isinstance(
+                n.ast, (ast.Assign, ast.AnnAssign)) and any(
+                    isinstance(t, ast.Name) and t.id == base.id for t in (
+                        n.ast.targets if isinstance(n.ast, ast.Assign)
+                        else [n.ast.target]))), None)
+            rebinds = [n for n in cfg.nodes if n.kind == "stmt" and isinstance(
+                n.ast, ast.Assign) and any(
+                    dotted(t) == dotted(v_e.defs[base.id])
+                    for t in n.ast.targets)]
+            anode = next((n for n in cfg.nodes if n.ast is a), None)
+            stale = dnode is None or anode is None or any(
+                r in cfg.reachable([dnode], strict=True) and
+                anode in cfg.reachable([r], strict=True) for r in rebinds)
+            if not stale:
+                base = v_e.defs[base.id]
         rep.ob("C11.attach", dotted(base) in recv, loc=we.loc(a),
                where=we.qualname, construct=short(tgt),
                message=f"attach target shard `{dotted(base)}` is the shard "
